@@ -28,6 +28,8 @@ type memConn struct {
 	failAt    int // index of the Write call that fails (-1: none)
 	delivered chan struct{} // closed when every chunk has been handed to the reader
 	endErr    error         // returned by Read once the chunks are exhausted (nil: block until Close)
+	delays    map[int]time.Duration // pause before handing out the chunk with this index (counted from the first)
+	handed    int
 }
 
 func newMemConn(chunks [][]byte) *memConn {
@@ -49,6 +51,16 @@ func (c *memConn) Read(p []byte) (int, error) {
 		return 0, errMemClosed
 	}
 	c.mu.Lock()
+	if d, ok := c.delays[c.handed]; ok && len(c.chunks) > 0 {
+		delete(c.delays, c.handed)
+		c.mu.Unlock()
+		select {
+		case <-time.After(d):
+		case <-c.closed:
+			return 0, errMemClosed
+		}
+		c.mu.Lock()
+	}
 	if len(c.chunks) > 0 {
 		ch := c.chunks[0]
 		n := copy(p, ch)
@@ -56,6 +68,7 @@ func (c *memConn) Read(p []byte) (int, error) {
 			c.chunks[0] = ch[n:]
 		} else {
 			c.chunks = c.chunks[1:]
+			c.handed++
 			if len(c.chunks) == 0 {
 				close(c.delivered)
 			}
